@@ -1410,11 +1410,16 @@ def run(ctx):
             report("infra:monitor", "Spec.verdict (Lean) = %s but the runner computed %s on %s" % (g, e, l), {"line": l}, found_input=False)
     nbp = stats.get("blockproc", {}).get("runs", 0)
     never = [s for s in FLOOR_SITES if s not in acc["sites_failed"]]
+    floor = []
     if not only:
         if stats["runs"] < FLOOR_RUNS[ctx.tier] or stats["model_compared"] < FLOOR_RUNS[ctx.tier] // 2:
-            raise Infra("coverage floor: %d runs, %d compared with the model" % (stats["runs"], stats["model_compared"]))
+            floor.append("%d runs, %d compared with the model" % (stats["runs"], stats["model_compared"]))
         if never:
-            raise Infra("coverage floor: no fault made these sites fail: %s" % never)
+            floor.append("no fault made these sites fail: %s" % never)
+        if floor and not ctx.violations:
+            # (when a correspondence violation was reported the model comparison of that case is skipped, which explains a
+            # missed floor; otherwise the generators no longer reach the code and the check must not pass)
+            raise Infra("coverage floor: " + "; ".join(floor))
     ctx.cov.update({
         "evaluations": stats["runs"] + nbp,
         "distinct_nontrivial": len(acc["distinct"]),
@@ -1432,6 +1437,7 @@ def run(ctx):
         "runs_in_which_the_model_predicts_output_left": acc["model_predicts_output_left"],
         "tree_matches_variant": acc["tree_variant"],
         "sites_made_to_fail": acc["sites_failed"],
+        "floor_missed": floor,
         "violation_keys": report.count,
         "histogram": stats,
         "workers": nworkers, "growth_constants": growth,
